@@ -870,6 +870,8 @@ fn dims() -> Vec<Dim> {
                 v("other", &[KEY_OTHER], true),
                 v("empty", &[""], false),
                 v("malformed", &["not a key"], false),
+                // octets outside visible ASCII (obs-text) are legal in a header value; the accept hash is over the octets
+                v("non-ascii", &["dGhlIHNhbXBsZSBub25jZQ=\u{e9}"], false),
                 v("duplicate", &[KEY_SAMPLE, KEY_OTHER], false),
             ],
         },
@@ -883,6 +885,7 @@ fn dims() -> Vec<Dim> {
                 v("case-variant", &["correct-psk_1"], true),
                 v("padded", &["Correct-Psk_1 "], true),
                 v("extended", &["Correct-Psk_1x"], false),
+                v("non-ascii", &["Correct-Psk_\u{e9}"], false),
                 v("empty", &[""], false),
                 v("lead-padded", &[" Correct-Psk_1"], false),
                 v("other-value", &["hunter2"], false),
